@@ -711,8 +711,14 @@ func builtinKeys(i *Interpreter, args []Expr, env *Environment) (interface{}, er
 	if !ok {
 		return nil, fmt.Errorf("keys() expects an object argument, got %T", objArg)
 	}
-	keys := make([]interface{}, 0, len(obj))
+	// Sorted, so that keys() does not depend on Go's randomised map order.
+	names := make([]string, 0, len(obj))
 	for k := range obj {
+		names = append(names, k)
+	}
+	sort.Strings(names)
+	keys := make([]interface{}, 0, len(names))
+	for _, k := range names {
 		keys = append(keys, k)
 	}
 	return keys, nil
